@@ -14,6 +14,10 @@ partial def box? (ltr : Bool) (width : Rat) : Sx → Option ColBox
   | .list [.atom "columns", id, st, count, balance, .list flags, .list kids] => do
     let cs : ColSpec := { count := ← count.nat?, balance := ← balance.bool?, ltr := ltr, width := width }
     pure (.columns (← id.nat?) (← style? st) cs (← allSome Sx.bool? flags) (← allSome (box? ltr width) kids))
+  | .list [.atom "columns", id, st, count, balance, gap, .list flags, .list kids] => do
+    let cs : ColSpec :=
+      { count := ← count.nat?, balance := ← balance.bool?, ltr := ltr, width := width, gap := ← gap.rat? }
+    pure (.columns (← id.nat?) (← style? st) cs (← allSome Sx.bool? flags) (← allSome (box? ltr width) kids))
   | _ => none
 
 partial def fragSx : CFrag → Sx
